@@ -210,7 +210,7 @@ private:
                     );
 
         _negate_bits    ( dst, this->_scanline_length );
-        _swap_half_bytes( dst, this->_scanline_length );
+        _mirror_bits    ( dst, this->_scanline_length );
 
     }
 
@@ -233,7 +233,7 @@ private:
     // For bit_aligned images we need to negate all bytes in the row_buffer
     // to make sure that 0 is black and 255 is white.
     detail::negate_bits<std::vector<byte_t>, std::true_type> _negate_bits;
-    detail::swap_half_bytes<std::vector<byte_t>, std::true_type> _swap_half_bytes;
+    detail::mirror_bits<std::vector<byte_t>, std::true_type> _mirror_bits;
 
     std::function<void(this_t*, byte_t*)> _read_function;
     std::function<void(this_t*)> _skip_function;
